@@ -5,6 +5,29 @@ machine's maximal continuation depth D, D must not depend on n, and values must 
 import props, vlib, cek, os, json, time
 
 
+def tlaps_arithmetic(wd):
+    """VMRulesProofs.tla: TLAPS proves, for all natural numbers, that CALL/ENTER/RET returns the stack pointer to its
+    value before the first argument, that an activation entered by TCALL returns with exactly the stack pointer the
+    replaced activation would have returned with (so a loop of tail calls never moves the base), and the VARARG and
+    builtin cases.  The operators are the ones Trace_VM checks on every recorded instruction."""
+    import shutil, subprocess, re
+    d = os.path.join(wd, 'tlaps')
+    os.makedirs(d, exist_ok=True)
+    for f in ('VMRules.tla', 'VMRulesProofs.tla'):
+        shutil.copy(os.path.join(vlib.SPEC, f), d)
+    try:
+        p = subprocess.run(['timeout', '600', 'tlapm', '--threads', '4', 'VMRulesProofs.tla'], cwd=d, stdout=subprocess.PIPE,
+                           stderr=subprocess.STDOUT, text=True)
+    except FileNotFoundError:
+        raise vlib.ToolError('tlapm is not installed')
+    m = re.search(r'All (\d+) obligations? proved', p.stdout)
+    if p.returncode != 0 or not m:
+        vlib.log(p.stdout[-3000:])
+        raise vlib.ToolError('TLAPS did not prove VMRulesProofs (rc=%d)' % p.returncode)
+    return {'module': 'VMRulesProofs', 'obligations_proved': int(m.group(1)),
+            'theorems': ['CallReturns', 'TailCallKeeps', 'VarArgFrame', 'VarArgReturns', 'BuiltinReturns']}
+
+
 @props.prop('C04')
 def c04(tier):
     q = tier == 'quick'
@@ -28,6 +51,7 @@ def c04(tier):
         # reach it expanded), and TCALL must rebuild the frame in place (Exec): listing and register trace
         import mach
         vcov.update(mach.run(verdict, wd, [('tail', 30 if q else 1500)], vlib.seed()))
+        vcov['tlaps'] = tlaps_arithmetic(wd)
 
     def extra(sessions, ends):
         ctx = {}
